@@ -9,6 +9,8 @@ Streams over the formal semantics (Folang/Sem):
         the same output (the instance of Props/Sim.lean's theorem is re-checked by evaluation);
       → (outside-fragment <construct>)  otherwise;  (sim-mismatch …) if the two semantics differ.
 The abstract programs are those of harness/fcdrv/gen.go (same S-expressions as stream c01.prog).
+`bind` = true for fc (given arguments of a partial application that are not inert are evaluated first,
+fix of D9), false for tinyfo (streams sem.progT / sem.lowerT).
 -/
 namespace Oracle.SemStream
 open Oracle Folang.Sem
@@ -187,28 +189,28 @@ partial def printT : GTail → Sx
 end
 
 /-- stream sem.lower: one abstract function → the Go-core of its lowering -/
-def handleLower (payload : List Sx) : Sx :=
+def handleLower (bind : Bool) (payload : List Sx) : Sx :=
   match payload with
   | [.list [.atom "fun", .atom n, .list ps, body]] =>
     match toBody body with
     | .error why => .list [.atom "outside-fragment", .atom why]
     | .ok b =>
-      if !wfB b then .list [.atom "outside-fragment", .atom "not-wf"]
-      else sx [at_ "gfun", at_ n, sx (ps.filterMap Sx.asAtom |>.map at_), printB (lowerB b)]
+      if !wfB bind b then .list [.atom "outside-fragment", .atom "not-wf"]
+      else sx [at_ "gfun", at_ n, sx (ps.filterMap Sx.asAtom |>.map at_), printB (lowerB bind b)]
   | _ => .atom "bad-line"
 
-def handle (payload : List Sx) : Sx :=
+def handle (bind : Bool) (payload : List Sx) : Sx :=
   match payload with
   | [.list funs, .atom entry] =>
     match toProg funs with
     | .error why => .list [.atom "outside-fragment", .atom why]
     | .ok P =>
-      if !wfProgB P then .list [.atom "outside-fragment", .atom "not-wf"] else
+      if !wfProgB bind P then .list [.atom "outside-fragment", .atom "not-wf"] else
       match runProg P entry fuel with
       | none => .list [.atom "stuck"]
       | some (tr, _) =>
         let out := String.join tr
-        match grunProg (lowerProg P) entry fuel with
+        match grunProg (lowerProg bind P) entry fuel with
         | some (gtr, _) =>
           if String.join gtr == out then .atom (Sx.encStr out)
           else .list [.atom "sim-mismatch", .atom (Sx.encStr out), .atom (Sx.encStr (String.join gtr))]
